@@ -1884,6 +1884,33 @@ class Lowerer:
 
     e_CXXTemporaryObjectExpr = e_CXXConstructExpr
 
+    def e_CXXNewExpr(self, e):
+        if not e.get('isPlacement') or e.get('isArray'):
+            raise LowerError('non-placement or array new expression')
+        t = self.ctype(e['type'])          # T *
+        et = t.deref()
+        inner = e.get('inner', [])
+        place = [x for x in inner if self.ctype(x['type']).cast().replace(' ', '') == 'void*']
+        inits = [x for x in inner if x not in place]
+        if len(place) != 1 or len(inits) > 1:
+            raise LowerError('placement new with %d placement arguments / %d initialisers' % (len(place), len(inits)))
+        tmp = self.hoisted_tmp(t)
+        p = '(%s = (%s)(%s))' % (tmp, t.cast(), self.expr(place[0]))
+        if not inits:
+            return '(%s, %s)' % (p, tmp)
+        init = inits[0]
+        if et.is_record():
+            k = init.get('kind')
+            while k in ('ExprWithCleanups', 'CXXBindTemporaryExpr'):
+                init = init['inner'][0]
+                k = init.get('kind')
+            if k in ('CXXConstructExpr', 'CXXTemporaryObjectExpr'):
+                return '(%s, %s, %s)' % (p, self.construct_into(tmp, et, init), tmp)
+            if k == 'InitListExpr' and not init.get('inner'):
+                return '(%s, %s, %s)' % (p, self.default_init(tmp, et), tmp)
+            raise LowerError('placement new of a record from %s' % k)
+        return '(%s, *%s = %s, %s)' % (p, tmp, self.expr(init), tmp)
+
     def e_CXXDefaultArgExpr(self, e):
         raise LowerError('default argument outside a call')
 
